@@ -38,6 +38,8 @@ def collect(ck: Check, outs, regmod="jxverif.kernels", replay=None):
                 rp = common.replay_kernel(REG[t], name, {})
                 ck.violation(name, {"solver_output": o["error"], "replay": rp}, reproduced=rp.get("reproduced", False))
                 ck.add_function(t, "body NOT discharged", 1)
+            elif o["error_kind"] == "missing-optional":
+                ck.notes.append(f"contract of the intermediate helper {t} skipped: the code no longer exists under this name ({o['error'][:120]}); its callers are verified through the code they now contain")
             elif o["error_kind"] in ("missing", "unsupported", "vacuous"):
                 ck.error(f"{t}: {o['error_kind']}: {o['error']}")
             else:
